@@ -92,7 +92,7 @@ def classify_collision(rel: str, api: dict | None) -> str:
     """Structural origin of two texts meeting at one path (used to attribute known findings narrowly).
 
     'module-vs-reexported-declaration-homonym': the path is <package P>/<N>.sdsstub where P's __init__ re-exports a
-    declaration under the name N AND a module called N exists elsewhere in the package (its stub is sent to P as well,
+    declaration under the name N AND a module called N exists in the package - elsewhere or next to that __init__ (its stub is sent to P/N.sdsstub as well,
     because the re-export lookup for modules matches any import that ends in '.N')."""
     if api is None or not rel.endswith(".sdsstub"):
         return "unclassified"
@@ -104,7 +104,7 @@ def classify_collision(rel: str, api: dict | None) -> str:
             for qi in m.get("qualified_imports", []):
                 if (qi.get("alias") or qi.get("qualified_name", "").split(".")[-1]).lstrip("_") == base:
                     reexports_decl_n = True
-    module_named_n = any(m.get("name", "").lstrip("_") == base and m.get("id") != f"{pkg_id}/{m.get('name')}" for m in api.get("modules", []))
+    module_named_n = any(m.get("name", "").lstrip("_") == base and m.get("name") != "__init__" for m in api.get("modules", []))
     if reexports_decl_n and module_named_n:
         return "module-vs-reexported-declaration-homonym"
     return "unclassified"
